@@ -31,7 +31,7 @@ IDENTITY_CALLS = {
     'std::iter::IntoIterator::into_iter', 'std::option::Option::<T>::take',
     'std::path::Path::as_ref', 'std::ffi::OsStr::new', "std::borrow::Cow::<'_, B>::into_owned",
     'std::result::Result::<T, E>::map_err', 'std::result::Result::<T, E>::ok', 'blake3::Hash::as_bytes', 'hash::StrongHash::as_bytes',
-    'std::hint::must_use', 'std::ffi::OsStr::as_encoded_bytes', 'std::string::String::as_bytes', 'str::as_bytes',
+    'std::hint::must_use', 'std::path::Path::to_string_lossy', 'std::ffi::OsStr::to_string_lossy', 'std::ffi::OsStr::as_encoded_bytes', 'std::string::String::as_bytes', 'str::as_bytes',
 }
 # Combinators: the result derives from every argument (closures contribute their captures).
 COMBINATOR_CALLS = {
